@@ -14,7 +14,8 @@ VARS = {"c01": None,
 
 
 def run(ck):
-    cpucheck.run(ck, "C10", "cpu-c10", NOTE["c10"], variants=VARS["c10"], extra=rigcheck.c10)
+    cpucheck.run(ck, "C10", "cpu-c10", NOTE["c10"], variants=VARS["c10"], extra=rigcheck.c10,
+                 theorems=["MajoranaVerif.Props.C10"])
 
 
 def replay(ck, path):
